@@ -12,6 +12,7 @@ import (
 	"github.com/gogo/protobuf/proto"
 	dbm "github.com/tendermint/tm-db"
 
+	abci "github.com/tendermint/tendermint/abci/types"
 	"github.com/tendermint/tendermint/config"
 	"github.com/tendermint/tendermint/libs/log"
 	"github.com/tendermint/tendermint/p2p"
@@ -59,6 +60,23 @@ func (w *world) peerIndex(id string) int {
 		}
 	}
 	return -1
+}
+
+// advertisersOf: the liars that have advertised exactly this snapshot so far.
+func (w *world) advertisersOf(s *abci.Snapshot) []int {
+	var out []int
+	for i, l := range w.liars {
+		l.mu.Lock()
+		for ci := range l.ever {
+			c := w.scn.Catalog[ci]
+			if c.Height == s.Height && c.Format == s.Format && c.Chunks == s.Chunks && c.Hash == hexs(s.Hash) && c.Meta == hexs(s.Metadata) {
+				out = append(out, i)
+				break
+			}
+		}
+		l.mu.Unlock()
+	}
+	return out
 }
 
 // buildChain makes the canonical chain of a scenario: validator churn, one
